@@ -136,6 +136,36 @@ class Real:
             s = io.BytesIO(data)
         elif kind == "buffered":
             s = io.BufferedReader(io.BytesIO(data))
+        elif kind == "rwfile":
+            # the caller has just produced the data through a read/write stream and hands that stream over
+            # as it stands: position at the end, the tail possibly still in the stream's own buffer
+            with _STAGE_LOCK:
+                self._nrw = getattr(self, "_nrw", 0) + 1
+                p = os.path.join(self.inputs, "rw%d-c%d" % (self._nrw, tok))
+            s = open(p, "w+b")
+            s.write(data)
+            self.last_stream = (s, len(data))
+            self.open_streams.append(s)
+            return s
+        elif kind == "gzip":
+            # a buffered binary stream whose name is a (shorter or longer) file that does not hold the content
+            import gzip
+            p = os.path.join(self.inputs, "c%d.gz" % tok)
+            if not os.path.exists(p):
+                with gzip.open(p, "wb") as g:
+                    g.write(data)
+            s = gzip.GzipFile(p, "rb")
+        elif kind == "stalename":
+            # an open stream whose name has meanwhile been given to another, shorter file
+            with _STAGE_LOCK:
+                self._nrw = getattr(self, "_nrw", 0) + 1
+                p = os.path.join(self.inputs, "stale%d-c%d" % (self._nrw, tok))
+            with open(p, "wb") as f:
+                f.write(data)
+            s = open(p, "rb")
+            os.rename(p, p + ".moved")
+            with open(p, "wb") as f:
+                f.write(b"x")
         else:
             raise ValueError(kind)
         s.seek(off)
